@@ -10,7 +10,7 @@
 EXTENDS WaiterImpl
 CONSTANTS Events, MaxOps
 VARIABLES steps
-vars == <<reg, token, calls, head, tail, next, prev, emask, icalls, itoken, steps>>
+vars == <<reg, token, calls, chanOf, head, tail, next, prev, emask, icalls, itoken, steps>>
 Masks == SUBSET Events
 
 MCInit == PInit /\ IInit /\ steps = 0
@@ -19,12 +19,14 @@ Tick == steps < MaxOps /\ steps' = steps + 1
 DoRegister(e, m) == Tick /\ Register(e, m) /\ IRegister(e, m)
 DoUnregister(e)  == Tick /\ Unregister(e) /\ IUnregister(e)
 DoNotify(m)      == Tick /\ Notify(m) /\ INotify(m)
-DoTake(e, ok)    == Tick /\ Take(e, ok) /\ ITake(e, ok)
+DoTake(c, ok)    == Tick /\ Take(c, ok) /\ ITake(c, ok)
+DoNewEntry(e, c) == Tick /\ NewEntry(e, c) /\ INewEntry(e)
 
 MCNext == \/ \E e \in Entries, m \in Masks : DoRegister(e, m)
           \/ \E e \in Entries : DoUnregister(e)
           \/ \E m \in Masks : DoNotify(m)
-          \/ \E e \in ChEntries, ok \in BOOLEAN : DoTake(e, ok)
+          \/ \E c \in Chans, ok \in BOOLEAN : DoTake(c, ok)
+          \/ \E e \in ChEntries, c \in Chans : DoNewEntry(e, c)
 MCSpec == MCInit /\ [][MCNext]_vars
 
 TypeOK == PTypeOK /\ ITypeOK /\ steps \in 0..MaxOps
@@ -40,11 +42,11 @@ MembershipFrame == [][\A e \in Entries :
 NotifyExact == [][\A m \in Masks : DoNotify(m) =>
                      /\ \A e \in CbEntries : calls'[e] - calls[e] =
                               (IF IsReg(e) /\ MaskOf(e) \cap m # {} THEN 1 ELSE 0)
-                     /\ \A e \in ChEntries : token'[e] =
-                              (IF IsReg(e) /\ MaskOf(e) \cap m # {} THEN 1 ELSE token[e])]_vars
+                     /\ \A c \in Chans : token'[c] =
+                              (IF \E e \in ChEntries : chanOf[e] = c /\ IsReg(e) /\ MaskOf(e) \cap m # {} THEN 1 ELSE token[c])]_vars
 \* a token is never lost: it disappears only by a successful take
-TokenSticky == [][\A e \in ChEntries : (token[e] = 1 /\ token'[e] = 0) => DoTake(e, TRUE)]_vars
+TokenSticky == [][\A c \in Chans : (token[c] = 1 /\ token'[c] = 0) => DoTake(c, TRUE)]_vars
 \* nothing but a notification calls back
-OnlyNotifyCalls == [][(calls' # calls \/ \E e \in ChEntries : token'[e] > token[e]) =>
+OnlyNotifyCalls == [][(calls' # calls \/ \E c \in Chans : token'[c] > token[c]) =>
                          \E m \in Masks : DoNotify(m)]_vars
 ====
